@@ -372,4 +372,52 @@ theorem C07_decode_encode (max cap : Int) (h : InitOk max cap) (fs : List Frame)
   rw [hbytes, frames_encode max fs hfs] at e
   exact ⟨(Prod.mk.inj e).1.symm, (Prod.mk.inj e).2.symm⟩
 
+/-! ## Non-vacuity: the hypotheses are satisfiable, the monitor is not trivial, the hypothesis on `max` is needed -/
+
+def outs (r : M Trace) : Option (List Outcome) := match r with | .ok tr => some (tr.map (·.2.1.out)) | .error _ => none
+def err (r : M Trace) : Option Panic := match r with | .ok _ => none | .error e => some e
+def traceOf (r : M Trace) : Trace := match r with | .ok tr => tr | .error _ => []
+
+theorem ok_of_err_none {r : M Trace} (h : err r = none) : r = .ok (traceOf r) := by
+  cases r with
+  | ok tr => rfl
+  | error e => cases h
+
+/-- `DefaultMaxMessageSize` and the stream's initial `Reserve(4096)`. -/
+example : InitOk 524288 4096 := by decide
+
+/-- The corpus witness of the repaired defect: `82 7f 80 00 00 00 00 00 00 00` (length 2^63) is refused, twice. -/
+example : outs (runInit 524288 4096 [.feed [0x82, 0x7f, 0x80, 0, 0, 0, 0, 0, 0, 0] 4096, .decode 4096, .decode 4096])
+    = some [.ok, .tooBig, .tooBig] := by decide
+
+def exFrame : Frame := { fin := true, rsv1 := false, rsv2 := false, rsv3 := false, opcode := 1, masked := true,
+                         mask := [1, 2, 3, 4], payload := [0x49, 0x6b] }
+def exOps : List DOp :=
+  [.feed [0x81] 512, .decode 512, .feed [0x82, 1, 2] 512, .decode 512, .feed [3, 4, 0x49, 0x6b] 512, .decode 512, .decode 512]
+
+example : encode exFrame = [0x81, 0x82, 1, 2, 3, 4, 0x49, 0x6b] := by decide
+
+/-- A masked text frame delivered in three segments: need more, need more, the frame, need more. -/
+example : outs (runInit 200 512 exOps) = some [.ok, .needMore, .ok, .needMore, .ok, .frame exFrame 8, .needMore] := by decide
+
+/-- All hypotheses of `C07_decode_encode` / `C07_frames_of_stream` hold together for that script. -/
+example : InitOk 200 512 ∧ runInit 200 512 exOps = .ok (traceOf (runInit 200 512 exOps)) ∧ FeedOnly exOps ∧
+    opsBytes exOps = [exFrame].flatMap encode ∧ (∀ f ∈ [exFrame], f.WF ∧ (f.payload.length : Int) ≤ 200) ∧
+    Drained (traceOf (runInit 200 512 exOps)) .needMore := by
+  refine ⟨by decide, ok_of_err_none (by decide), ?_, by decide, by decide, ?_⟩
+  · intro op hop bs hc; subst hc; simp [exOps] at hop
+  · exact ⟨⟨.needMore, 0, 512⟩, by decide, Or.inl ⟨rfl, rfl⟩⟩
+
+/-- The monitor rejects a frame that has not been received, and a `need more` that leaves no room. -/
+example : step (init 200) .decode ⟨.frame exFrame 8, 0, 512⟩ = none := by decide
+example : step { init 200 with pending := [0x81, 0x05, 1, 2] } .decode ⟨.needMore, 4, 0⟩ = none := by decide
+example : step { init 200 with pending := [0x81, 0x05, 1, 2] } .decode ⟨.needMore, 4, 508⟩ ≠ none := by decide
+
+/-- Without the hypothesis on `max` the property is false: with `maxMessageSize = MaxInt64` the declared length
+2^63-1 passes the check, `readSoFar += payloadLength` wraps, and `Reserve` asks the allocator for more than
+MaxInt64 bytes (Go panics). -/
+theorem C07_huge_max_panics :
+    err (runInit Go.I64MAX 512 [.feed [0x82, 0x7f, 0x7f, 0xff, 0xff, 0xff, 0xff, 0xff, 0xff, 0xff] 512, .decode 512])
+      = some .allocRange := by decide
+
 end Sonic.Props.C07
